@@ -60,9 +60,9 @@ Fixpoint resolves (t : tree) : bool :=
 
 (* [skip]: true for the unfiltered listing (getContents: directory_iterator(path, ec, follow_symlinks = false), with
    the ancestor test), false for getFilteredContents (no such test there).
-   [trunc]: getFilteredContents iterates with follow_symlinks = true and "it != end && !ec": the iterator stats each
-   entry as it reaches it, so the first entry whose stat fails (a dangling link) ends the loop before it is pushed:
-   that entry and everything after it in directory order is not listed. *)
+   [trunc] (before the repair of getFilteredContents): it iterated with follow_symlinks = true and "it != end && !ec";
+   the iterator stats each entry as it reaches it, so the first entry whose stat fails (a dangling link) ended the loop
+   before it was pushed: that entry and everything after it in directory order was not listed. *)
 Fixpoint observe_gen (anc : bytes -> bytes -> bool) (trunc : bool) (skip : bool) (p : bytes) (t : tree) : vtree :=
   match t with
   | Missing => VMissing
@@ -80,12 +80,12 @@ Fixpoint observe_gen (anc : bytes -> bytes -> bool) (trunc : bool) (skip : bool)
                 end) cs)
   end.
 
-(* the code as it is *)
-Definition observe := observe_gen anc_repaired true.
+(* the code as it is (getFilteredContents repaired: follow_symlinks = false, no truncation) *)
+Definition observe := observe_gen anc_repaired false.
 (* before the repair of the ancestor test *)
-Definition observe_unrepaired := observe_gen anc_unrepaired true.
-(* what getFilteredContents would see with follow_symlinks = false *)
-Definition observe_untruncated := observe_gen anc_repaired false.
+Definition observe_unrepaired := observe_gen anc_unrepaired false.
+(* before the repair of getFilteredContents: the listing ends at the first entry whose stat fails *)
+Definition observe_truncating := observe_gen anc_repaired true.
 
 (* ------------------------------------------------------------------ ordering of a listing *)
 
